@@ -15,7 +15,9 @@ Property theorems only (helpers: `Proofs/Lemmas/Dynamics.lean`; model: `Pose/Mod
   shape assertions and `atleast_1d`, they act item-wise under the torch broadcasting rule and raise exactly when an assertion
   or a broadcast fails (`bmv_batched`, `bmv_batched_raises`, `bvv_batched`, `bvmv_batched`, `bvmv_unbatched`,
   `bvmv_batched_raises`, `lti_batched`, `lti_batched_noconst`).
-* §3 LTI: a forward returns `A x + B u + c1`, `C x + D u + c2` at every clock value (`lti_eq`); what is established about
+* §3 LTI: a forward returns `A x + B u + c1`, `C x + D u + c2` at every clock value (`lti_eq`); the forward reads the public
+  *properties*, for the `is None` test of the constants too (`forward_reads_properties`, `overridden_constants_used`,
+  `overrides_resolve`, `private_test_variant_differs`; model `LinObj`: buffers vs overridden properties); what is established about
   pypose's `LTV` is only that `LTI.state_transition/observation` read the *overridable properties* `A … c2` and that
   `LTV.set_refpoint(t)` sets the clock — pypose's `LTV` does **no** time indexing. §3b states the indexing law of the
   *user's subclass* the harness uses (the documented pattern `self._A[..., self._t, :, :]` / `… % T`): `ltv_eq_periodic`,
@@ -391,6 +393,49 @@ theorem lti_eq {n m p : ℕ} (A : Matrix (Fin n) (Fin n) ℝ) (B : Matrix (Fin n
     (c1.map fun c _ => c) (c2.map fun c _ => c) t 0 (by simp [sliceIdx]) x u
   rw [this]
   cases c1 <;> cases c2 <;> rfl
+
+/-! ### 3a. `state_transition` / `observation` read the overridable *properties* -/
+
+/-- **The forward depends on the public properties only** — not on what the constructor stored in the private buffers: two
+objects (of `LTI`, `LTV` or user subclasses) whose properties `A, B, C, D, c1, c2` agree give the same outputs, whatever
+their buffers hold (`None`, a dummy, the real thing). -/
+theorem forward_reads_properties (o o' : LinObj ℝ) (h : o.props = o'.props) (t : Int) (x u : DVec ℝ) :
+    objForward o t x u = objForward o' t x u := by
+  simp [objForward, h]
+
+/-- **An overridden constant term is used**, also when the constructor received `None`: a subclass overriding the `c1` and
+`c2` properties (here: one time slice, e.g. a value computed from the clock) on an object built with `c1 = c2 = None`
+advances by `A x + B u + c1`, observes `C x + D u + c2`. -/
+theorem overridden_constants_used {n m p : ℕ} (k : Kind) (A : Matrix (Fin n) (Fin n) ℝ) (B : Matrix (Fin n) (Fin m) ℝ)
+    (C : Matrix (Fin p) (Fin n) ℝ) (D : Matrix (Fin p) (Fin m) ℝ) (c1 : Fin n → ℝ) (c2 : Fin p → ℝ)
+    (hk : k ≠ .ltv) (t : Int) (x : Fin n → ℝ) (u : Fin m → ℝ) :
+    objForward { kind := k, periodic := false, bufA := [rowsOf A], bufB := [rowsOf B], bufC := [rowsOf C], bufD := [rowsOf D],
+                 bufc1 := none, bufc2 := none, ovc1 := some (some [List.ofFn c1]), ovc2 := some (some [List.ofFn c2]) }
+      t (List.ofFn x) (List.ofFn u)
+      = some (List.ofFn (A.mulVec x + B.mulVec u + c1), List.ofFn (C.mulVec x + D.mulVec u + c2)) := by
+  have hs : sliceIdx k false 1 t = some 0 := by cases k <;> simp_all [sliceIdx]
+  simp only [objForward, LinObj.props, Option.getD_none, Option.getD_some, linForward, List.length_singleton, hs]
+  simp only [List.getElem?_cons_zero, bmvOK_rowsOf, Bool.and_self, if_true, Option.bind_some]
+  have e1 := affine_eq A B (some c1) x u
+  have e2 := affine_eq C D (some c2) x u
+  simp only [Option.map_some, optC, Option.getD_some] at e1 e2
+  rw [e1, e2]
+
+/-- every property can be overridden, in every combination: the forward of an object with overrides is the forward of the
+plain system made of the resolved properties (override where present, buffer otherwise) -/
+theorem overrides_resolve (o : LinObj ℝ) (t : Int) (x u : DVec ℝ) :
+    objForward o t x u = linForward ⟨o.kind, o.periodic, o.ovA.getD o.bufA, o.ovB.getD o.bufB, o.ovC.getD o.bufC,
+      o.ovD.getD o.bufD, o.ovc1.getD o.bufc1, o.ovc2.getD o.bufc2⟩ t x u := rfl
+
+/-- the variant that tests the private buffer (seeded change C15-5, not the code) drops the overridden constants:
+`x = u = 0`, `A = B = C = D = 0`, buffers `None`, overridden `c1 = c2 = 1` — the model of the code returns `(1, 1)`, the variant `(0, 0)` -/
+theorem private_test_variant_differs :
+    let o : LinObj ℝ := { kind := .lti, periodic := false, bufA := [[[0]]], bufB := [[[0]]], bufC := [[[0]]], bufD := [[[0]]],
+                           bufc1 := none, bufc2 := none, ovc1 := some (some [[1]]), ovc2 := some (some [[1]]) }
+    objForward o 0 [0] [0] = some ([1], [1]) ∧ objForwardPrivateTest o 0 [0] [0] = some ([0], [0]) := by
+  constructor <;>
+    simp [objForward, objForwardPrivateTest, LinObj.props, linForward, sliceIdx, bmvOK, affine, optAdd, bmv, DMat.mulVec,
+      DVec.add, dot_real]
 
 /-! ### 3b. The indexing law of the *user's* LTV subclass
 
